@@ -86,7 +86,29 @@ Section World.
     bprox_genuine : forall h f gamma s0, has_bprox h f = true -> 0 < gamma ->
       let x := fst (fst (bprox h f gamma s0)) in let gx := snd (fst (bprox h f gamma s0)) in
       Gen f (x, gx, fst (snd (bprox h f gamma s0))) /\
-      Gen h (x, vsub s0 (vscal gamma gx), snd (snd (bprox h f gamma s0)))
+      Gen h (x, vsub s0 (vscal gamma gx), snd (snd (bprox h f gamma s0)));
+    (* inexact proximal steps: [iprox f opt gamma x0] = (((w, v, fw), (x, gx, fx)), eps) is what an approximate
+       proximal operator of step gamma > 0 returns at x0: the approximate proximal point x with a subgradient gx and
+       the value fx there, a dual point v with a point w at which v is a subgradient and the value fw there (not
+       used by 'PD_gapII'; for 'PD_gapIII' v is (x0 - x) / gamma), and the accuracy eps reached.  Specification:
+       the samples are genuine and the criterion of the option holds with that eps
+         PD_gapI:    |x - x0 + gamma v|^2 / 2 + gamma (fx - fw - <v, x - w>) <= eps
+         PD_gapII:   |x - x0 + gamma gx|^2 / 2 <= eps
+         PD_gapIII:  gamma (fx - fw - <v, x - w>) <= eps,  v = (x0 - x) / gamma.
+       Every world has one (e.g. x = w = x0 with the oracle's output there), so no flag. *)
+    iprox : nat -> ipopt -> R -> E -> ((E * E * R) * (E * E * R)) * R;
+    iprox_spec : forall f opt gamma x0, 0 < gamma ->
+      let r := iprox f opt gamma x0 in
+      let w := fst (fst (fst (fst r))) in let v := snd (fst (fst (fst r))) in let fw := snd (fst (fst r)) in
+      let x := fst (fst (snd (fst r))) in let gx := snd (fst (snd (fst r))) in let fx := snd (snd (fst r)) in
+      Gen f (x, gx, fx) /\
+      match opt with
+      | PDgapI => Gen f (w, v, fw) /\
+                  nrm2 (vadd (vsub x x0) (vscal gamma v)) / 2 + gamma * (fx - fw - inner v (vsub x w)) <= snd r
+      | PDgapII => nrm2 (vadd (vsub x x0) (vscal gamma gx)) / 2 <= snd r
+      | PDgapIII => Gen f (w, vscal (1 / gamma) (vsub x0 x), fw) /\
+                    gamma * (fx - fw - inner (vscal (1 / gamma) (vsub x0 x)) (vsub x w)) <= snd r
+      end
   }.
 
   (** the program takes proximal / linear-optimization / line-search / Bregman steps only on functions of the world
@@ -151,6 +173,24 @@ Section World.
         let r := bprox W h f (Q2R gamma) (evalP (fst vs) sx0) in
         (upd (upd (fst vs) (m_np s) (fst (fst r))) (S (m_np s)) (snd (fst r)),
          upd (upd (snd vs) (m_ne s) (fst (snd r))) (S (m_ne s)) (snd (snd r)))
+    | MInexactProx f x0 gamma opt =>
+        (* the fresh leaves get the outputs of the approximate proximal operator; for 'PD_gapII' the fresh point leaf e
+           gets the error x - x0 + gamma gx, so that the recorded point x0 - gamma gx + e evaluates to x *)
+        let x0v := evalP (fst vs) x0 in
+        let r := iprox W f opt (Q2R gamma) x0v in
+        let w := fst (fst (fst (fst r))) in let v := snd (fst (fst (fst r))) in let fw := snd (fst (fst r)) in
+        let x := fst (fst (snd (fst r))) in let gx := snd (fst (snd (fst r))) in let fx := snd (snd (fst r)) in
+        match opt with
+        | PDgapI =>
+            (upd (upd (upd (upd (fst vs) (m_np s) v) (S (m_np s)) w) (S (S (m_np s))) x) (S (S (S (m_np s)))) gx,
+             upd (upd (upd (snd vs) (m_ne s) fw) (S (m_ne s)) fx) (S (S (m_ne s))) (snd r))
+        | PDgapII =>
+            (upd (upd (fst vs) (m_np s) (vadd (vsub x x0v) (vscal (Q2R gamma) gx))) (S (m_np s)) gx,
+             upd (upd (snd vs) (m_ne s) fx) (S (m_ne s)) (snd r))
+        | PDgapIII =>
+            (upd (upd (upd (fst vs) (m_np s) x) (S (m_np s)) gx) (S (S (m_np s))) w,
+             upd (upd (upd (snd vs) (m_ne s) fw) (S (m_ne s)) fx) (S (S (m_ne s))) (snd r))
+        end
     end.
 
   Fixpoint wrun (W : world) (ops : list mop) (s : mstate) (vs : (nat -> E) * (nat -> R))
